@@ -54,7 +54,7 @@ def hist_slice(tier):
     return 1
 
 
-def gen_case(rng, arm, tier):
+def gen_case(rng, arm, tier, k=0):
     kind = rng.choice(KINDS)
     if arm == "pre" and kind == "semi":
         kind = "supervised"
